@@ -1,7 +1,7 @@
 (* C11: jose_jwk_gen on the model.  The generators OpenSSL provides are replaced by PLACEHOLDERS of the right
    size (random octets = zeros; RSA numbers with N.size n = 2 * (bits / 2) -- what OpenSSL 3 delivers -- and the
-   requested e; EC numbers = 1; RSA sizes above 65536 bits: the generator fails, as OpenSSL does at once for the
-   only such value the run uses, 2^31 - 1): the
+   requested e; EC numbers = 1; the model itself refuses sizes outside 2048..16384, the guard at 65536 below is
+   never reached): the
    correspondence compares accept/reject and the SHAPE of the result (members, lengths, kty, crv, alg, key_ops,
    what was deleted); tools/props/c11.py masks the random values on both sides. *)
 open Model
